@@ -2,6 +2,8 @@
 package c02
 
 import (
+	"time"
+	"os"
 	"encoding/json"
 	"fmt"
 	"runtime"
@@ -438,7 +440,7 @@ func run(c *mc.Ctx, r *mc.Result) {
 	}
 	results := make([]*mc.Result, len(jobs))
 	var wg sync.WaitGroup
-	sem := make(chan struct{}, 4)
+	sem := make(chan struct{}, 8)
 	for i, j := range jobs {
 		wg.Add(1)
 		go func() {
@@ -446,7 +448,14 @@ func run(c *mc.Ctx, r *mc.Result) {
 			sem <- struct{}{}
 			defer func() { <-sem }()
 			rr := mc.NewResult()
+			t0 := time.Now()
 			j(rr)
+			if os.Getenv("VERIF_DEBUG") != "" {
+				if fh, err := os.OpenFile(os.Getenv("VERIF_DEBUG"), os.O_APPEND|os.O_CREATE|os.O_WRONLY, 0644); err == nil {
+					fmt.Fprintf(fh, "c02 job %d: %.1fs eval=%d states=%d\n", i, time.Since(t0).Seconds(), rr.Evaluations, rr.States)
+					fh.Close()
+				}
+			}
 			results[i] = rr
 		}()
 	}
@@ -547,7 +556,12 @@ func runBFS(c *mc.Ctx, r *mc.Result, name string, p *hist.Pool, maxLive int, sib
 	r.Count(name+".model_states", int64(len(g.ByModel)))
 	multi := 0
 	for _, l := range g.ByModel {
-		if len(l) > 1 {
+		// distinct tree dumps (a state and its after-managed-commit twin share one)
+		shapes := map[string]bool{}
+		for _, i := range l {
+			shapes[g.States[i].Shape] = true
+		}
+		if len(shapes) > 1 {
 			multi++
 		}
 	}
